@@ -302,6 +302,8 @@ def run_case(case):
                     ck.expect(allrec.shape[1] == exp.shape[1] and sources.multiset(allrec) == sources.multiset(exp), f"returned-other-data:{tag}", f"{len(allrec)} stored vs {len(exp)} input records")
                 except Exception as e:  # noqa
                     ck.fail(f"returned-unusable-catalog:{tag}|{exc_sig(e)}", f"{type(e).__name__}: {e}")
+        if outcome == "raised" and must_raise is False:
+            ck.fail(f"valid-input-rejected:{tag}", f"{err}")
         if outcome in ("raised", "hang"):
             after = tree_digest(target)
             if fault in ("exists_no_overwrite", "exists_no_overwrite_trees", "overwrite_noncache_dir", "overwrite_file"):
